@@ -5,6 +5,7 @@
 # copy lives under /root/scratch/sp<n> and is removed afterwards; its RESULTS.json entries are merged into
 # /verif/seeded/RESULTS.json.
 # usage: tools_seeded_parallel.sh <jobs> <id> [<id> ...]
+#        SEEDED_TOOL=tools_refactors.py SEEDED_DIR=refactors tools_seeded_parallel.sh <jobs> <id> ...   (harmless refactorings)
 set -u
 jobs=$1; shift
 ids=("$@")
@@ -17,18 +18,19 @@ for ((j = 0; j < jobs; j++)); do
   (
     c=/root/scratch/sp$j
     rm -rf "$c"; cp -a /verif "$c"; rm -f "$c/coq/.build.lock"
-    cd "$c" && /venv/bin/python tools_seeded.py "${grp[@]}" > "/root/scratch/sp$j.log" 2>&1
+    cd "$c" && /venv/bin/python ${SEEDED_TOOL:-tools_seeded.py} "${grp[@]}" > "/root/scratch/sp$j.log" 2>&1
   ) &
   pids+=($!)
 done
 for p in "${pids[@]}"; do wait "$p"; done
-/venv/bin/python - "$jobs" "${ids[@]}" <<'EOF'
-import json, pathlib, sys
+SEEDED_DIR=${SEEDED_DIR:-seeded} /venv/bin/python - "$jobs" "${ids[@]}" <<'EOF'
+import json, os, pathlib, sys
+D = os.environ.get('SEEDED_DIR', 'seeded')
 jobs = int(sys.argv[1]); order = sys.argv[2:]; ids = set(order)
-rf = pathlib.Path('/verif/seeded/RESULTS.json')
+rf = pathlib.Path(f'/verif/{D}/RESULTS.json')
 res = json.loads(rf.read_text())
 for j in range(jobs):
-    f = pathlib.Path(f'/root/scratch/sp{j}/seeded/RESULTS.json')
+    f = pathlib.Path(f'/root/scratch/sp{j}/{D}/RESULTS.json')
     if f.exists():
         got = json.loads(f.read_text())
         for k in order[j::jobs]:          # only what THIS copy ran (the rest of its file is the old state)
@@ -37,6 +39,9 @@ for j in range(jobs):
 rf.write_text(json.dumps(res, indent=1))
 for k in sorted(ids):
     r = res.get(k, {})
+    if D != 'seeded':
+        print(k, json.dumps(r)[:300])
+        continue
     print(k, r.get('tests_on_mutant'), 'demo', r.get('demo_on_mutant'), r.get('demo_on_repo'),
           {p: ('MISSED' if not c.get('violation') else 'no-input' if c.get('no_failing_input') else 'replay')
            for p, c in r.get('checks', {}).items()}, r.get('error', ''))
